@@ -761,11 +761,17 @@ pub fn run(args: &Args) -> i32 {
     {
         let dims: Vec<usize> = if thorough { (8..=24).collect() } else { vec![8, 9, 12, 15, 22] };
         for (ci, &n) in dims.iter().enumerate() {
-            for variant in 0..2 {
-                let w: Vec<i64> = (0..n).map(|i| if variant == 0 { 1 } else { [1i64, -1, 2, 3, -2][(i * 7 + ci) % 5] }).collect();
+            for variant in 0..4 {
+                // variants: both orientations of the shift x (all weights 1 except the last = c | mixed small weights)
+                let w: Vec<i64> = (0..n).map(|i| if variant < 2 { if i == n - 1 { [1i64, -1, 7, -5, 1000][ci % 5] } else { 1 } }
+                                                 else { [1i64, -1, 2, 3, -2][(i * 7 + ci) % 5] }).collect();
                 let mut m = vec![vec![0i64; n]; n];
                 for i in 0..n {
-                    m[(i + 1) % n][i] = w[i];
+                    if variant % 2 == 0 {
+                        m[i][(i + 1) % n] = w[i];
+                    } else {
+                        m[(i + 1) % n][i] = w[i];
+                    }
                 }
                 let sign = if (n - 1) % 2 == 0 { 1 } else { -1 };
                 let c = Case { id: format!("cyc{}v{}", n, variant), variant: "base", k: n, m, x: vec![], xc: Some(vec![]), sign,
